@@ -33,8 +33,8 @@ GridShapes ==
   ELSE [1..2 -> 1..7] \cup [1..3 -> 1..5]
 
 Visit ==
-  /\ pc # << >>
   /\ Mode = "grid"
+  /\ pc # << >>
   /\ acc' = [slots |-> VisitSlots(cfg.ng, acc.slots, pc), nvis |-> acc.nvis + 1]
   /\ pc'  = NextPoint(cfg.ng, pc)
   /\ UNCHANGED cfg
